@@ -111,7 +111,8 @@ def tlc(spec, cfg, wdir, env=None, workers=8, timeout=600, heap="6g", extra=None
     with _spec_lock:
         if not os.path.isdir(sdir):
             shutil.copytree(SPEC, sdir)
-    meta = os.path.join(wdir, "meta-%s-%d" % (os.path.basename(cfg), int(time.time() * 1000) % 100000))
+    import uuid
+    meta = os.path.join(wdir, "meta-%s-%s" % (os.path.basename(cfg), uuid.uuid4().hex[:12]))
     jopts = ["-Xss512m", "-Xmx" + heap, "-XX:+UseParallelGC"]
     if depth_first:
         jopts.append("-Dtlc2.tool.queue.IStateQueue=StateDeque")
